@@ -64,7 +64,25 @@ def run(tier, seed, t0):
     # (iv) building and searching the segment indexes over the series layouts of C04 (sizes up to 65 538 points): a panic is C05's
     out4 = os.path.join(out, "c04")
     os.makedirs(out4, exist_ok=True)
-    summ4 = json.loads(vlib.run_harness(["c04", out4, seed, tier], timeout=3000))
+    # the stage runs as a process of its own: a fatal stack overflow or a hang while an index is built kills / stalls that process
+    # and is the code's doing (C05), any other failure of the process is the harness's (inconclusive)
+    import subprocess
+    exe = os.path.join(vlib.BUILD, "bin", "harness")
+    try:
+        p4 = subprocess.run([exe, "c04", out4, str(seed), tier], cwd=vlib.ROOT, env=dict(vlib.GOENV), capture_output=True, text=True,
+                            timeout=900 if tier == "quick" else 3000)
+        died = None if p4.returncode == 0 else (p4.stderr[:800] + " ... " + p4.stderr[-700:])
+    except subprocess.TimeoutExpired:
+        died = "TIMEOUT"
+    if died is not None:
+        if died == "TIMEOUT" or "stack overflow" in died or "goroutine stack exceeds" in died:
+            v.violation({"property": PID, "event": {"op": "index-build-stage", "stderr_tail": died[-600:]},
+                         "what": "building / searching the segment indexes over the series layouts of C04 %s" % (
+                             "does not return (no progress for 15 minutes; the stage normally takes seconds)" if died == "TIMEOUT"
+                             else "kills the process with a stack overflow: " + died[:300].replace("\n", " "))})
+            open(os.path.join(out4, "c04.events.ndjson"), "w").close()
+        else:
+            raise vlib.Inconclusive("index-build stage of the harness failed:\n" + died)
     index_panics, last_series, nseries = 0, None, 0
     for l in open(os.path.join(out4, "c04.events.ndjson")):
         if '"op":"series"' in l:
